@@ -64,3 +64,26 @@ fn failed_replacement_then_retry() {
     assert!(log.borrow().is_empty(), "child protocol violated: {:?}", log.borrow());
     assert!(second.is_ok(), "the retry registers the replacement: {:?}", second);
 }
+
+// second history: after the refused registration the application gives up on the replacement and removes it (or replaces
+// it once more). The replacement was never registered, so nothing may be unregistered for it.
+#[test]
+fn failed_replacement_then_remove() {
+    let mut el = EventLoop::<()>::try_new().unwrap();
+    let h = el.handle();
+    let log = Rc::new(RefCell::new(Vec::new()));
+    let fail = Rc::new(Cell::new(false));
+    let old = Child { name: "old", registered: false, fail_register: Rc::new(Cell::new(false)), log: log.clone() };
+    let new = Child { name: "new", registered: false, fail_register: fail.clone(), log: log.clone() };
+    let d = Dispatcher::new(TransientSource::from(old), |_, _, _| {});
+    let tok = h.register_dispatcher(d.clone()).unwrap();
+    el.dispatch(Some(std::time::Duration::ZERO), &mut ()).unwrap();
+    fail.set(true);
+    d.as_source_mut().replace(new);
+    assert!(h.update(&tok).is_err());
+    d.as_source_mut().remove();
+    let r = h.update(&tok);
+    assert!(log.borrow().is_empty(), "child protocol violated: {:?}", log.borrow());
+    assert!(r.is_ok(), "{:?}", r);
+    assert!(d.as_source_ref().is_none());
+}
